@@ -42,6 +42,7 @@ type rsock struct {
 }
 
 type world struct {
+	queueSize int // RouterConfig.QueueSize for routers created from now on (0 = unlimited)
 	m        *mWorld
 	routers  map[string]*vnet.Router
 	mrouters map[string]*mRouter
@@ -57,7 +58,7 @@ func newWorld() *world {
 }
 
 func (w *world) router(name, cidr, parent string, nat *natSpec, statics []string) {
-	cfg := &vnet.RouterConfig{Name: name, CIDR: cidr, LoggerFactory: logging.NewDefaultLoggerFactory(), StaticIPs: statics}
+	cfg := &vnet.RouterConfig{Name: name, CIDR: cidr, LoggerFactory: logging.NewDefaultLoggerFactory(), StaticIPs: statics, QueueSize: w.queueSize}
 	if nat != nil {
 		if nat.oneToOne {
 			cfg.NATType = &vnet.NATType{Mode: vnet.NATModeNAT1To1}
@@ -417,6 +418,7 @@ func c01concurrent(nat natSpec, nSenders, per, bound int, strict bool, queue int
 		done := 0
 		body := func() {
 			w = newWorld()
+			w.queueSize = queue
 			w.router("root", "1.2.3.0/24", "", nil, nil)
 			var st []string
 			if nat.oneToOne {
@@ -572,6 +574,9 @@ func init() {
 					out = append(out, c01concurrent(n, 2, 2, 2, true, 0))
 				}
 				out = append(out, c01concurrent(nats[2], 3, 2, 2, true, 0))
+				// bounded router queues: no loss while the number of datagrams stays below the bound,
+				// and with a bound of 1 whatever arrives is still intact, in order, once
+				out = append(out, c01concurrent(nats[0], 2, 2, 2, true, 5), c01concurrent(nats[0], 2, 2, 2, true, 1))
 				return out
 			}
 			out = append(out, c01plan(c01topos[0], nats[0], 3, 0, 0))
@@ -584,6 +589,7 @@ func init() {
 			for _, n := range []natSpec{nats[0], nats[2], nats[5], nats[8], nats[9]} {
 				out = append(out, c01concurrent(n, 2, 2, 3, true, 0), c01concurrent(n, 3, 2, 3, true, 0))
 			}
+			out = append(out, c01concurrent(nats[0], 3, 2, 3, true, 7), c01concurrent(nats[4], 2, 2, 3, true, 1), c01concurrent(nats[0], 3, 2, 2, true, 2))
 			for _, n := range []natSpec{nats[0], nats[9]} {
 				out = append(out, c01concurrent(n, 2, 1, 1, false, 0))
 			}
